@@ -48,6 +48,22 @@ func checkC04(w *World, r *Report) {
 		if !w.parserSide(fd) {
 			continue
 		}
+		// the verbatim handler looks at the same token kinds in another role (it re-assembles the
+		// raw body; R04.3/R04.5 are its rules): recognised by what it builds
+		buildsVerbatim := false
+		ast.Inspect(fd.Body, func(n ast.Node) bool {
+			if c, ok := n.(*ast.CallExpr); ok {
+				if f := w.callee(c); f != nil {
+					if sig, ok := f.Type().(*types.Signature); ok && sig.Results().Len() == 1 && isNamed(sig.Results().At(0).Type(), twigPath, "VerbatimNode") {
+						buildsVerbatim = true
+					}
+				}
+			}
+			return true
+		})
+		if buildsVerbatim {
+			continue
+		}
 		fname := w.declName(fd)
 		ast.Inspect(fd.Body, func(n ast.Node) bool {
 			cc, ok := n.(*ast.CaseClause)
